@@ -1,7 +1,8 @@
 (* C01 - frame encode/decode round trip for every message type.  Statement file. *)
 From Coq Require Import List NArith ZArith Bool.
 From LW Require Import Base.Outcome Base.Bytes Mac.Commands Mac.Spec Mac.Stream Frame.Model Frame.Spec
-     Frame.RoundtripProofs Frame.CanonProofs.
+     Frame.RoundtripProofs Frame.CanonProofs Text.Base64 Frame.Text.
+From LW Require Text.Base64Proofs Frame.TextProofs.
 From LW Require Sec.JoinAcceptProofs Crypto.AESInv.
 Import ListNotations.
 Open Scope N_scope.
@@ -16,6 +17,21 @@ Theorem C01_roundtrip : forall p, spec_valid p = true ->
   exists bs, phy_marshal p = Ok bs /\ phy_unmarshal bs = Ok (wire_view p).
 Proof. exact frame_roundtrip. Qed.
 Print Assumptions C01_roundtrip.
+
+(* ... and to base64 text: MarshalText succeeds with the base64 (StdEncoding, padded) form of those
+   bytes, and UnmarshalText of that text yields the same frame as the binary decoder. base64 is
+   modelled (Text/Base64.v: encoder, and Go's decoder including skipped CR/LF and the padding
+   rules) and compared with encoding/base64 on every text case of the correspondence run *)
+Theorem C01_text_roundtrip : forall p, spec_valid p = true ->
+  exists bs, phy_marshal p = Ok bs /\ phy_marshal_text p = Ok (b64_encode bs) /\
+             phy_unmarshal_text (b64_encode bs) = Ok (wire_view p).
+Proof. exact Frame.TextProofs.frame_text_roundtrip. Qed.
+Print Assumptions C01_text_roundtrip.
+
+(* base64 itself: decoding the encoding of any byte string returns it *)
+Theorem C01_base64_roundtrip : forall bs, Forall (fun b => b < 256) bs -> b64_decode (b64_encode bs) = Some bs.
+Proof. exact Text.Base64Proofs.b64_decode_encode. Qed.
+Print Assumptions C01_base64_roundtrip.
 
 (* a value the encoder refuses is never one the specification allows *)
 Theorem C01_refusal_sound : forall p, phy_marshal p = Err -> spec_valid p = false.
